@@ -57,6 +57,9 @@ class World(object):
             except Exception:
                 pass
         self.keep = []
+        self.aux = None
+        self.s = []
+        self.args = []
 
 
 class Recipe(object):
@@ -292,7 +295,7 @@ EXP0 = ('expand', 0)
 # -- util.base / wrappers
 R('wrap', 1, [lambda e, w: e.wrap(w.s[0])], 'util.base', stream=MAP0)
 R('data', 1, [lambda e, w: e.data(w.s[0]),
-              lambda e, w: e.data(w.s[0], 1, 4)], 'util.base', stream=MAP0,
+              lambda e, w: e.data(w.s[0], 1, 4)], 'util.base', stream=MAP1,
   items=True)
 R('values', 1, [lambda e, w: e.values(w.s[0], 'a'),
                 lambda e, w: e.values(w.s[0], 'a', 'c'),
@@ -409,6 +412,12 @@ R('addcolumn', 1,
    lambda e, w: e.addcolumn(w.s[0], 'z', w.arg([10, 20, 30, 40, 50, 60, 70,
                                                 80, 90, 100]),
                             index=1, missing='M')],
+  'transform.basics', stream=MAP0)
+R('addcolumn-view', 2,
+  [lambda e, w: e.addcolumn(w.s[0], 'z', e.values(w.s[1], 'c')),
+   lambda e, w: e.addcolumn(w.s[0], 'z', e.values(e.convert(w.s[1], 'c',
+                                                            f_inc), 'c'),
+                            index=0, missing='M')],
   'transform.basics', stream=MAP0)
 R('addfieldusingcontext', 1,
   [lambda e, w: e.addfieldusingcontext(w.s[0], 'z', f_ctx)],
@@ -543,6 +552,18 @@ R('unpackdict', 1,
                              samplesize=2, includeoriginal=True)],
   'transform.unpacks', stream=('map', 2))
 
+R('unpack-src', 1,
+  [lambda e, w: e.unpack(w.s[0], 'd', w.arg(['p', 'q'])),
+   lambda e, w: e.unpack(w.s[0], 'd', ['p', 'q', 'r'], include_original=True,
+                         missing='M')],
+  'transform.unpacks', stream=MAP0, profile='containers')
+R('unpackdict-src', 1,
+  [lambda e, w: e.unpackdict(w.s[0], 'd', keys=w.arg(['p', 'q'])),
+   lambda e, w: e.unpackdict(w.s[0], 'd', keys=['q', 'zz'], missing='M',
+                             includeoriginal=True),
+   lambda e, w: e.unpackdict(w.s[0], 'd', samplesize=3)],
+  'transform.unpacks', stream=('map', 3), profile='containers')
+
 # -- transform.reshape
 R('melt', 1, [lambda e, w: e.melt(w.s[0], 'a'),
               lambda e, w: e.melt(w.s[0], key=w.arg(['a', 'b'])),
@@ -621,10 +642,10 @@ R('hashjoin', 2,
    lambda e, w: e.hashjoin(w.s[0], w.s[1], key=w.arg(['a', 'b']),
                            lprefix='l_', rprefix='r_'),
    lambda e, w: e.hashjoin(w.s[0], w.s[1], lkey='a', rkey='c')],
-  'transform.hashjoins', stream=EXP0, build=(1,))
+  'transform.hashjoins', stream=FIL0, build=(1,))
 R('hashjoin-natural', 2, [lambda e, w: e.hashjoin(e.cut(w.s[0], 'a', 'b'),
                                                   e.cut(w.s[1], 'a', 'c'))],
-  'transform.hashjoins', stream=EXP0, build=(1,), hdr_ctor=True)
+  'transform.hashjoins', stream=FIL0, build=(1,), hdr_ctor=True)
 R('hashleftjoin', 2,
   [lambda e, w: e.hashleftjoin(w.s[0], w.s[1], key='a'),
    lambda e, w: e.hashleftjoin(w.s[0], w.s[1], key='a', cache=False,
@@ -783,7 +804,10 @@ R('sort', 1,
    lambda e, w: e.sort(w.s[0], 'c', reverse=True),
    lambda e, w: e.sort(w.s[0], 'c', buffersize=100),
    lambda e, w: e.sort(w.s[0]),
-   lambda e, w: e.sort(w.s[0], buffersize=2)],
+   lambda e, w: e.sort(w.s[0], buffersize=2),
+   lambda e, w: e.sort(w.s[0], 'a', buffersize=2, tempdir=w.tempdir),
+   lambda e, w: e.sort(w.s[0], 'c', buffersize=1, tempdir=w.tempdir,
+                       cache=False)],
   'transform.sorts', temp=True)
 R('sort-of-sort', 1,
   [lambda e, w: e.sort(_aux(w, e.sort(w.s[0], 'a', buffersize=2)), 'c',
@@ -830,6 +854,27 @@ R('fromcolumns', 1,
 R('fromdb-conn', 1, [lambda e, w: _from_db_conn(e, w)], 'io.db')
 R('fromdb-factory', 1, [lambda e, w: _from_db_factory(e, w)], 'io.db')
 R('fromxml', 1, [lambda e, w: _from_xml(e, w)], 'io.xml')
+
+
+# -- tee views (pass-through; excluded from C01 by the property)
+R('teecsv', 1,
+  [lambda e, w: e.teecsv(w.s[0], w.store.source('tee.csv')),
+   lambda e, w: e.teecsv(w.s[0], w.store.source('tee.csv'),
+                         write_header=False, encoding='utf-8')],
+  'io.csv', stream=MAP0, c01=False)
+R('teetsv', 1, [lambda e, w: e.teetsv(w.s[0], w.store.source('tee.tsv'))],
+  'io.csv', stream=MAP0, c01=False)
+R('teepickle', 1,
+  [lambda e, w: e.teepickle(w.s[0], w.store.source('tee.p'))],
+  'io.pickle', stream=MAP0, c01=False)
+R('teetext', 1,
+  [lambda e, w: e.teetext(w.s[0], w.store.source('tee.txt'),
+                          template='{a} {b}\n', prologue='P\n',
+                          epilogue='E\n')],
+  'io.text', stream=MAP0, c01=False)
+R('teehtml', 1,
+  [lambda e, w: e.teehtml(w.s[0], w.store.source('tee.html'))],
+  'io.html', stream=MAP0, c01=False)
 
 
 class _Sink(object):
@@ -900,6 +945,9 @@ def public_view_constructors(e):
 
 
 for _r in RECIPES.values():
+    if _r.name.startswith('tee'):
+        _r.stackable = True
+        continue
     if _r.group.startswith('io.') or _r.name in ('facet', 'cache-of-sort',
                                                  'sort-of-sort'):
         _r.stackable = False
